@@ -125,6 +125,14 @@ def sanitizer_violations(layer_notes):
     return out
 
 
+def watchdog_s(job, tier):
+    """wall-clock watchdog for one worker: generous (a firing is inconclusive or, if it reproduces in trace
+    mode, a hang), but short enough that a quick check with a hanging call still ends"""
+    if tier == "quick":
+        return 240 if job["layer"] != "miri" else 300
+    return job["budget"] * job.get("slack", 3) + 180
+
+
 def _job(name, cfg, layer, shards, scale, budget, optional=False, nshards=NSHARDS, slack=3):
     return {"name": name, "cfg": cfg, "layer": layer, "shards": list(shards), "nshards": nshards, "scale": scale,
             "budget": budget, "optional": optional, "slack": slack}
